@@ -52,8 +52,29 @@ func cgProgram(r *rand.Rand) []cgBlock {
 	r.Shuffle(len(decls), func(i, j int) { decls[i], decls[j] = decls[j], decls[i] })
 	blocks = append(blocks, decls[:r.Intn(len(decls)+1)]...)
 
+	// the user subroutine that is declared twice (if any) is chosen first: it is not used in function
+	// position (which of a plain and a functional definition "is" the function depends on the order by nature)
+	dupUser := ""
+	if r.Intn(5) == 0 {
+		dupUser = users[r.Intn(len(users))]
+	}
 	stmt := func(indent string, allowGoto bool) string {
-		switch k := r.Intn(14); {
+		switch k := r.Intn(17); {
+		case k == 14:
+			// regex captures: the counters of the capture variables belong to the subroutine being linted
+			if r.Intn(2) == 0 {
+				return indent + "if (req.url ~ \"^/(foo)/(bar)\") {\n" + indent + "  set req.http.G = re.group." + []string{"1", "2"}[r.Intn(2)] + ";\n" + indent + "}\n"
+			}
+			return indent + "set req.http.G = re.group." + []string{"1", "2", "3"}[r.Intn(3)] + ";\n"
+		case k == 15:
+			// a plain (non functional) user subroutine used like a function
+			if u := users[r.Intn(len(users))]; u != dupUser {
+				return indent + "set req.http.P = " + u + "();\n"
+			}
+			return indent + "set req.http.S = \"s\";\n"
+		case k == 16 && len(funcs) > 0:
+			// a functional subroutine called with a call statement
+			return indent + "call " + funcs[r.Intn(len(funcs))] + ";\n"
 		case k < 5:
 			t := users[r.Intn(len(users))]
 			if r.Intn(12) == 0 {
@@ -106,6 +127,9 @@ func cgProgram(r *rand.Rand) []cgBlock {
 	}
 	for _, f := range funcs {
 		ret := "return \"x\";"
+		if r.Intn(4) == 0 {
+			ret = "return re.group." + []string{"1", "2"}[r.Intn(2)] + ";"
+		}
 		if r.Intn(3) == 0 && len(funcs) > 1 {
 			ret = "return " + funcs[r.Intn(len(funcs))] + "();"
 		}
@@ -113,8 +137,8 @@ func cgProgram(r *rand.Rand) []cgBlock {
 	}
 	// duplicate definitions: a user subroutine declared twice, as a plain subroutine again or as a
 	// functional one of the same name (nobody needs to call it)
-	if r.Intn(5) == 0 {
-		u := users[r.Intn(len(users))]
+	if dupUser != "" {
+		u := dupUser
 		// the second definition has a neutral body: which of two DIFFERENT bodies is "the" definition
 		// depends on the order by nature, the diagnostics about the duplicate itself must not
 		if r.Intn(2) == 0 {
